@@ -64,6 +64,29 @@ Definition drawfix (f : nat -> R) (xtop h : nat) (r1 r2 n : Z) (rows : list R) :
               else rows in
   draw_range f xtop h (Z.to_nat r1c) (Z.to_nat (Z.min n (top + hz - r1c))) rows.
 
+(* vi_drawfix(r1, r2, n, 1): the preview vi_change draws before reading the replacement text.  Nothing has been edited
+   yet: g is what vi_drawrow draws for the rows of the buffer as it is.  With preview a change that starts above the
+   window moves xtop to r1; when lines disappear (dis < 0) the rows below the n kept rows are drawn from the rows -dis
+   further down (the C code does this by shifting xtop around the loop).  Returns the new xtop and the screen. *)
+Definition drawfix_preview (g : nat -> R) (xtop h : nat) (r1 r2 n : Z) (rows : list R) : nat * list R :=
+  let dis := (n - (r2 - r1 + 1))%Z in
+  let xtop := if (r1 <? Z.of_nat xtop)%Z then Z.to_nat r1 else xtop in
+  let top := Z.of_nat xtop in let hz := Z.of_nat h in
+  let r1c := clampZ r1 top (top + hz - 1) in
+  let r2c := clampZ r2 top (top + hz - 1) in
+  let rows := term_room h (r1c - r2c - 1 + n) (Z.to_nat (r1c - top)) rows in
+  let rows := if (dis <? 0)%Z && (r1c + n <? top + hz)%Z
+              then draw_range (fun i => g (i + Z.to_nat (- dis))) xtop h (Z.to_nat (r1c + n)) (Z.to_nat (top + hz - (r1c + n))) rows
+              else rows in
+  (xtop, draw_range g xtop h (Z.to_nat r1c) (Z.to_nat (Z.min n (top + hz - r1c))) rows).
+
+(* vi_nextline (insert mode, after a typed newline, and first thing in `o`): on the last row of the window a line feed
+   scrolls the region, otherwise a line is inserted below the cursor row.  State: (xtop, xrow, screen). *)
+Definition nextline (h xtop xrow : nat) (rows : list R) : nat * nat * list R :=
+  if xrow =? xtop + h - 1
+  then (S xtop, S xrow, del_lines blank 0 h 0 1 rows)
+  else (xtop, S xrow, term_room h 1 (S xrow - xtop) rows).
+
 (* the redraw decision at the tail of vi() (single window): mod_row = mod & VC_ROW,
    mod_win = mod & VC_WIN, left_changed = (xleft != oleft) *)
 Definition redraw_tail (f : nat -> R) (h : nat) (mod_row mod_win left_changed hll : bool)
